@@ -213,7 +213,19 @@ class Styler:
         if not m:
             return None
         prefix, q, body = m.groups()
-        c = self.k(5)
+        c = self.k(8)
+        if c == 5 and len(q) == 1 and len(body) >= 2 and "f" not in prefix.lower():
+            # backslash-newline continuation inside a single-quoted string (value unchanged)
+            h = 1 + self.k(len(body) - 1)
+            if body[h - 1] != "\\" and not (h >= 2 and body[h - 2] == "\\"):
+                return prefix + q + body[:h] + "\\\n" + body[h:] + q
+            return None
+        if c in (6, 7) and len(q) == 1 and "\\n" in body and "f" not in prefix.lower() and "r" not in prefix.lower():
+            # triple-quoted spelling with real newlines (only when \\n is the only kind of escape in the literal)
+            rest = body.replace("\\n", "")
+            if "\\" not in rest and not body.endswith(q) and q * 3 not in body:
+                return prefix + q * 3 + body.replace("\\n", "\n") + q * 3
+            return None
         if c == 0 and prefix:
             return prefix.upper() + q + body + q
         if c == 1 and prefix == "":
